@@ -89,7 +89,7 @@ def norm_writes(ws):
 
 def opsig(op):
     if op[0] == 'create':
-        return 'create(%s%s)' % (op[1], ',refs' if op[3] else '')
+        return 'create(%s%s%s)' % (op[1], ',refs' if any(v[:1] == ('ref',) for v in op[3].values() if isinstance(v, tuple)) else '', ',items' if any(v[:1] == ('refs',) for v in op[3].values() if isinstance(v, tuple)) else '')
     if op[0] == 'set':
         return 'set(%s=%s)' % (op[2], 'None' if op[3] is None else ('ref' if isinstance(op[3], (tuple, list)) else 'val'))
     if op[0] == 'setm': return 'set(**kw)'
